@@ -29,6 +29,7 @@ import (
 //	nonce <snd> <n>       current evm nonce              execbad t<id> <0|1>
 //	txlist <count> t..    EventTxList (C23)              getall <0|1>   EventGetMempool
 //	q                     all read-only observers
+//	burst a | b | ...     up to six lock-protected calls from concurrent goroutines (burst.go)
 type H struct {
 	Out   *gen.Out
 	Prop  string
@@ -216,6 +217,8 @@ func (h *H) Do(line string) {
 		h.opGetAll(line, f)
 	case "q":
 		h.opQuery(line)
+	case "burst":
+		h.opBurst(line)
 	default:
 		h.emit(line, "bad-op")
 	}
